@@ -18,11 +18,11 @@ Produce TWO different, realistic changes to the Go code under /tmp/seed-{pid} (t
   (c) the breakage needs something SPECIFIC to manifest — a particular interleaving, a crash or fault at a particular point, a multi-step sequence of operations, an unusual input, or two cooperating sites that each look fine alone — NOT something ordinary use would expose at once (if the shipped tests or a trivial smoke run would notice, it is too shallow; if nothing can ever observe it, it is not a break).
 For each change also write a DEMONSTRATION: a Go test (a new _test.go file in the relevant package, or a small new package inside the worktree) that exercises exactly the situation needed, FAILS with your change applied and PASSES on the unmodified code. Verify both directions yourself (save the change with `git diff > /tmp/seed-{pid}-out/N/patch.diff`, toggle it with `git apply -R` / `git apply`; NEVER use `git stash`: the stash is shared with other worktrees of this repository that other people are using). The demonstration may drive resources directly, use goroutines, inject failures through the public interfaces, etc.; it must be deterministic enough to fail reliably (say ≥ 9 of 10 runs) with the change.
 
-Environment: no network. For every shell command: `unset GOFLAGS GOTOOLCHAIN GOSUMDB; export GOPROXY=off` (the repository has a go.work at its root requiring go 1.24, which is in the local toolchain cache and is selected automatically; with these settings `go build ./...`, `go vet ./...` and `go test ./...` work inside every module directory, e.g. `cd distsys && go test ./...`). Scala/mill cannot run; only change Go code (the runtime under distsys/, or the checked-in generated Go of a system such as systems/raftkvs/raftkvs.go when the property is about that system). Do not edit existing tests. Do not commit. Other people run tests on this machine at the same time and several test suites listen on fixed TCP ports: run tests inside a private network namespace — `unshare -n bash -c 'ip link set lo up; go test ./...'` — so that an 'address already in use' failure never confuses you.
+Environment: no network. For every shell command: `unset GOFLAGS GOTOOLCHAIN GOSUMDB; export GOPROXY=off` (the repository has a go.work at its root requiring go 1.24, which is in the local toolchain cache and is selected automatically; with these settings `go build ./...`, `go vet ./...` and `go test ./...` work inside every module directory, e.g. `cd distsys && go test ./...`). Scala/mill cannot run; only change Go code (the runtime under distsys/, or the checked-in generated Go of a system such as systems/raftkvs/raftkvs.go when the property is about that system). Do not edit existing tests. Do not commit. Other people run tests on this machine at the same time and several test suites listen on fixed TCP ports: run tests inside a private network namespace — `unshare -n bash -c 'ip link set lo up; go test ./...'` — so that an 'address already in use' failure never confuses you (likewise 'Cannot acquire directory lock on "/tmp/badger"' means somebody else's run holds that fixed path: just re-run).
 
 ## Deliver (write these files, then summarise them in your final message)
 /tmp/seed-{pid}-out/1/patch.diff   — `git diff` of change 1 only (paths relative to the repo root, must apply with `git apply` on a clean checkout)
-/tmp/seed-{pid}-out/1/demo/...     — the demonstration test file(s), with a comment at the top saying where to place them and the exact command to run
+/tmp/seed-{pid}-out/1/demo/...     — the demonstration test file(s), whose header comment contains the two lines `// Place this file at:   <path relative to the repo root>` and `// Run with:   cd <module dir> && go test <args>` (one line, no shell continuation)
 /tmp/seed-{pid}-out/1/notes.md     — 5-15 lines: what the change is, why it breaks the property, what exactly is needed for it to manifest, which existing tests you ran (with their result), and the demo's result with and without the change
 …and the same under /tmp/seed-{pid}-out/2/ for change 2.
 Leave the worktree clean at the end (`git checkout -- . && git clean -fd` inside /tmp/seed-{pid}) — the patches and demos live in the -out directory.
